@@ -17,6 +17,7 @@ import (
 	"strings"
 
 	"github.com/pdfcpu/pdfcpu/pkg/api"
+	"verif/harness/internal/cliprop"
 	"verif/harness/internal/fileprop"
 	"verif/harness/internal/fsx"
 	"verif/harness/internal/opcat"
@@ -25,22 +26,67 @@ import (
 )
 
 type item struct {
-	op opcat.Op
-	sc fileprop.Scenario
+	op  opcat.Op
+	sc  fileprop.Scenario
+	cli *cliprop.Item // set for the pkg/cli command forms (op, sc are then derived from it)
 }
 
-func items() []item {
+// cliItems: the pkg/cli command forms that replace an existing destination, driven in-process:
+// "cmd - out" (stdin -> existing file: the CLI stream staging createStreamOutput + finalize) for every
+// stream-capable form, "cmd - outDir" onto existing outputs, and the plain file forms of a
+// representative subset. Destination kinds: regular file 0600/0644/0664, symlink to a regular file,
+// second name of a hard-linked file, the very file stdin is redirected from.
+// quick: 2 destination kinds per form (rotating with the seed, so every kind is reached by many forms);
+// thorough: all.
+func cliItems(t *vk.T) []item {
+	var all []cliprop.Item
+	for _, it := range cliprop.All() {
+		if it.Dest.Replaces() {
+			all = append(all, it)
+		}
+	}
+	if t.Quick() {
+		all = cliprop.Sample(all, t.RNG("cli-dest-rotation").IntN(840), func(string, int) int { return 2 })
+	}
+	var its []item
+	for i := range all {
+		it := all[i]
+		its = append(its, item{op: opcat.Op{Name: it.OpName()}, sc: it.Scenario(), cli: &it})
+	}
+	return its
+}
+
+func items(t *vk.T) []item {
 	var its []item
 	for _, op := range opcat.All() {
 		for _, sc := range fileprop.Scenarios(op) {
 			switch sc {
 			case fileprop.InPlace, fileprop.Existing0644, fileprop.Existing0600, fileprop.DirExisting:
-				its = append(its, item{op, sc})
+				its = append(its, item{op: op, sc: sc})
 			}
 		}
 	}
-	return its
+	return append(its, cliItems(t)...)
 }
+
+func build(fx, root string, it item) (*fileprop.Case, error) {
+	if it.cli != nil {
+		return cliprop.Build(fx, root, *it.cli)
+	}
+	return fileprop.Build(fx, root, it.op, it.sc)
+}
+
+// oldSum is the content a destination path holds before the call, read THROUGH the path (a symlinked
+// destination holds the bytes of its target).
+func oldEntry(c *fileprop.Case, d string) fsx.Entry {
+	e := c.Pristine[d]
+	if e.Mode&os.ModeSymlink != 0 {
+		return c.Pristine[filepath.ToSlash(filepath.Join(filepath.Dir(d), e.Link))]
+	}
+	return e
+}
+
+func oldSum(c *fileprop.Case, d string) [32]byte { return oldEntry(c, d).Sum }
 
 func main() {
 	vk.Run("C02", "fault_enumeration", func(t *vk.T) {
@@ -58,7 +104,7 @@ func main() {
 }
 
 func parent(t *vk.T) {
-	t.Rule("case = (operation, overwrite scenario, crash point k): the destination bytes and the sandbox listing observed immediately before filesystem call k of a fault-free run (= the state a process kill at that point leaves); non-trivial = crash points at which a staging file exists or the destination already holds the new bytes; distinct by (op, scenario, k)")
+	t.Rule("case = (operation, overwrite scenario, crash point k): the destination bytes and the sandbox listing observed immediately before filesystem call k of a fault-free run (= the state a process kill at that point leaves); non-trivial = crash points at which a staging file exists or the destination already holds the new bytes; distinct by (op, scenario, k). Operations: the pkg/api + pkg/pdfcpu catalogue, and the pkg/cli command forms built as cmd/pdfcpu builds them (cli.XCommand, cli.Dispatch) and run in-process with os.Stdin redirected from a sandbox file and $TMPDIR inside the sandbox; a destination is read THROUGH its path (a symlinked destination must yield the complete old or complete new bytes; the link itself may be replaced or kept); the link target / the other name of a hard-linked destination must hold its complete old or the complete new bytes as well")
 	t.Assume("process-crash model: page cache survives, so the state before call k equals the post-mortem state of a kill at k (validated by real SIGKILLs in the thorough tier)")
 	t.Assume("granularity is the package-os call; a kill inside one write(2) is not modelled (the destination is never written directly when the property holds, and is seen torn at later boundaries when it is)")
 	fx := filepath.Join(t.Scratch(), "fx")
@@ -68,7 +114,11 @@ func parent(t *vk.T) {
 	if err := opcat.Prepare(vk.RepoDir(), fx); err != nil {
 		t.Broken("fixtures: %v", err)
 	}
-	t.Extra("op_scenarios", len(items()))
+	t.Assume("the spooled copy of stdin in $TMPDIR (pdfcpu-stdin-*.pdf) is a crash leftover in the system's temporary directory, not next to the destination: counted (tmpdir_entries_at_crash_points), not judged")
+	t.Extra("op_scenarios", len(items(t)))
+	t.Extra("cli_forms", len(cliprop.Forms()))
+	t.Extra("cli_op_scenarios", len(cliItems(t)))
+	t.Extra("cli_not_driven", cliprop.NotDriven)
 	t.RunShards(16, "VERIF_FX="+fx)
 	if t.Counter("crash_points_observed") == 0 {
 		t.Broken("no crash point observed")
@@ -81,14 +131,19 @@ type boundary struct {
 	sums  map[string][32]byte
 	sizes map[string]int64
 	extra []string
+	tmp   int // entries under $TMPDIR
 }
 
 func shard(t *vk.T) {
 	fx := os.Getenv("VERIF_FX")
 	si, sn := t.Shard()
 	root := filepath.Join(t.Scratch(), "sb")
-	for idx, it := range items() {
+	only := os.Getenv("VERIF_ONLY_OP")
+	for idx, it := range items(t) {
 		if idx%sn != si {
+			continue
+		}
+		if only != "" && !strings.Contains(it.op.Name+"/"+string(it.sc), only) {
 			continue
 		}
 		runItem(t, fx, root, it)
@@ -109,16 +164,21 @@ func listAll(root string) []string {
 
 func runItem(t *vk.T, fx, root string, it item) {
 	name := it.op.Name + "/" + string(it.sc)
-	c, err := fileprop.Build(fx, root, it.op, it.sc)
+	c, err := build(fx, root, it)
 	if err != nil {
 		t.Inconclusive("case-build-failed/" + name + ": " + err.Error())
 		return
 	}
+	if it.cli != nil {
+		t.Count("cli_ops_observed", 1)
+		t.Count("cli_dest_kind/"+string(it.cli.Dest), 1)
+	}
+	watched := append(append([]string{}, c.Dest...), c.Aux...)
 	var bs []*boundary
 	m := &osmon.Mon{Scope: root}
 	observe := func(k int64, call string) {
 		b := &boundary{k: k, call: call, sums: map[string][32]byte{}, sizes: map[string]int64{}}
-		for _, d := range c.Dest {
+		for _, d := range watched {
 			data, err := os.ReadFile(filepath.Join(root, filepath.FromSlash(d)))
 			if err != nil {
 				b.sizes[d] = -1
@@ -129,6 +189,10 @@ func runItem(t *vk.T, fx, root string, it item) {
 		}
 		for _, p := range listAll(root) {
 			if _, ok := c.Pristine[p]; !ok {
+				if c.TmpDir != "" && strings.HasPrefix(p, c.TmpDir+"/") {
+					b.tmp++
+					continue
+				}
 				b.extra = append(b.extra, p)
 			}
 		}
@@ -156,8 +220,9 @@ func runItem(t *vk.T, fx, root string, it item) {
 	reported := map[string]bool{}
 	for _, b := range bs {
 		nontrivial := len(b.extra) > 0
-		for _, d := range c.Dest {
-			old := c.Pristine[d]
+		t.Count("tmpdir_entries_at_crash_points", int64(b.tmp))
+		for _, d := range watched {
+			old := oldEntry(c, d)
 			switch {
 			case b.sizes[d] >= 0 && b.sums[d] == old.Sum:
 				t.Count("state_old", 1)
@@ -185,7 +250,7 @@ func runItem(t *vk.T, fx, root string, it item) {
 		for _, x := range b.extra {
 			baseName := filepath.Base(x)
 			next := false
-			for _, d := range c.Dest {
+			for _, d := range watched {
 				if filepath.Dir(d) == filepath.Dir(x) {
 					next = true
 				}
@@ -229,6 +294,9 @@ func realKills(t *vk.T, fx string, it item, M int) {
 	name := it.op.Name + "/" + string(it.sc)
 	rng := t.RNG("kills/" + name)
 	n := 6
+	if it.cli != nil {
+		n = 3
+	}
 	for i := 0; i < n && M > 0; i++ {
 		k := 1 + rng.IntN(M)
 		if i == 0 {
@@ -269,12 +337,14 @@ func realKills(t *vk.T, fx string, it item, M int) {
 				state = "new"
 			default:
 				// encrypted outputs need a password to validate
-				conf := opcat.DefaultConf()
-				conf.UserPW, conf.OwnerPW = "u1", "o1"
-				if api.ValidateFile(full, conf) == nil {
-					state = "new"
-				} else {
-					state = "torn"
+				state = "torn"
+				for _, pw := range [][2]string{{"u1", "o1"}, {opcat.UserPW, opcat.OwnerPW}, {"u2", opcat.OwnerPW}, {opcat.UserPW, "o2"}} {
+					conf := opcat.DefaultConf()
+					conf.UserPW, conf.OwnerPW = pw[0], pw[1]
+					if api.ValidateFile(full, conf) == nil {
+						state = "new"
+						break
+					}
 				}
 			}
 			t.Count("real_kill_state_"+state, 1)
@@ -311,18 +381,28 @@ func killChild(t *vk.T) {
 		os.Exit(3)
 	}
 	op, ok := opcat.ByName(spec.Op)
-	if !ok {
+	if !ok && !strings.HasPrefix(spec.Op, "cli:") {
 		os.Exit(3)
 	}
-	c, err := fileprop.Build(spec.Fx, spec.Root, op, spec.Sc)
+	op.Name = spec.Op
+	it := item{op: op, sc: spec.Sc}
+	if strings.HasPrefix(spec.Op, "cli:") {
+		ci, ok := cliprop.Find(spec.Op, spec.Sc)
+		if !ok {
+			os.Exit(3)
+		}
+		it.cli = &ci
+	}
+	c, err := build(spec.Fx, spec.Root, it)
 	if err != nil {
 		fmt.Println("build:", err)
 		os.Exit(3)
 	}
-	meta := map[string]any{"Dest": c.Dest}
+	watched := append(append([]string{}, c.Dest...), c.Aux...)
+	meta := map[string]any{"Dest": watched}
 	old := map[string]string{}
-	for _, d := range c.Dest {
-		old[d] = fmt.Sprintf("%x", c.Pristine[d].Sum)
+	for _, d := range watched {
+		old[d] = fmt.Sprintf("%x", oldSum(c, d))
 	}
 	meta["Old"] = old
 	b, _ := json.Marshal(meta)
@@ -333,4 +413,3 @@ func killChild(t *vk.T) {
 	os.Exit(4)
 }
 
-var _ = fsx.IsStaging
